@@ -5,6 +5,9 @@
 //!           | @L<afp>      change the decode level now (ServerCommand::ChangeDecoding / Channel::set_decode_level)
 //!           | @Wb          from now on the transmit path is full: the next write is parked (a peer that does not read)
 //!           | @Wa<k>       the next write call is taken only up to k bytes
+//!           | @A           (server, anywhere in the line) the session has an authorization handler (role "operator"): a
+//!                          counting policy - every third query is denied - whose queries appear in `calls`
+//!                          (an application quota / audit handler: consulting it is an observable effect)
 //!           | @R           the transmit path has room again (releases a parked write)
 //!                          (client: @W / @R tokens before the first chunk take effect before the request is sent)
 //!   role    = server | client
@@ -126,9 +129,60 @@ impl RequestHandler for Handler {
     }
 }
 
+struct CountingAuth {
+    n: std::sync::atomic::AtomicUsize,
+    log: std::sync::Arc<std::sync::Mutex<Vec<String>>>,
+}
+
+impl CountingAuth {
+    fn ask(&self, what: &str, unit: UnitId, a: u16, b: u16, role: &str) -> Authorization {
+        let k = self.n.fetch_add(1, std::sync::atomic::Ordering::SeqCst);
+        self.log.lock().unwrap().push(format!("az{}:{}:{}:{}:{}", what, unit.value, a, b, role));
+        if k % 3 == 2 {
+            Authorization::Deny
+        } else {
+            Authorization::Allow
+        }
+    }
+}
+
+impl AuthorizationHandler for CountingAuth {
+    fn read_coils(&self, u: UnitId, r: AddressRange, role: &str) -> Authorization {
+        self.ask("rc", u, r.start, r.count, role)
+    }
+    fn read_discrete_inputs(&self, u: UnitId, r: AddressRange, role: &str) -> Authorization {
+        self.ask("rd", u, r.start, r.count, role)
+    }
+    fn read_holding_registers(&self, u: UnitId, r: AddressRange, role: &str) -> Authorization {
+        self.ask("rh", u, r.start, r.count, role)
+    }
+    fn read_input_registers(&self, u: UnitId, r: AddressRange, role: &str) -> Authorization {
+        self.ask("ri", u, r.start, r.count, role)
+    }
+    fn write_single_coil(&self, u: UnitId, i: u16, role: &str) -> Authorization {
+        self.ask("wc", u, i, 1, role)
+    }
+    fn write_single_register(&self, u: UnitId, i: u16, role: &str) -> Authorization {
+        self.ask("wr", u, i, 1, role)
+    }
+    fn write_multiple_coils(&self, u: UnitId, r: AddressRange, role: &str) -> Authorization {
+        self.ask("wmc", u, r.start, r.count, role)
+    }
+    fn write_multiple_registers(&self, u: UnitId, r: AddressRange, role: &str) -> Authorization {
+        self.ask("wmr", u, r.start, r.count, role)
+    }
+}
+
 async fn run_server(framing: Framing, level: DecodeLevel, tokens: Vec<Token>) -> String {
     let wire = Wire::new();
     let log = std::sync::Arc::new(std::sync::Mutex::new(Vec::new()));
+    let with_auth = tokens.iter().any(|t| matches!(t, Token::Auth));
+    let tokens: Vec<Token> = tokens.into_iter().filter(|t| !matches!(t, Token::Auth)).collect();
+    let auth: Option<(std::sync::Arc<dyn AuthorizationHandler>, String)> = if with_auth {
+        Some((CountingAuth { n: Default::default(), log: log.clone() }.wrap(), "operator".to_string()))
+    } else {
+        None
+    };
     let handler = Handler {
         coils: (0..3000).map(|i| i % 3 == 0).collect(),
         regs: (0..3000).map(|i| (i * 7) as u16).collect(),
@@ -140,7 +194,7 @@ async fn run_server(framing: Framing, level: DecodeLevel, tokens: Vec<Token>) ->
     map.add(UnitId::new(2), handler);
     let (tx, rx) = tokio::sync::mpsc::channel(8);
     let io = wire.clone();
-    let task = tokio::spawn(async move { run_server_session(Box::new(io), map, None, framing, level, rx).await });
+    let task = tokio::spawn(async move { run_server_session(Box::new(io), map, auth, framing, level, rx).await });
     for t in &tokens {
         match t {
             Token::Chunk(c) => wire.push(c),
@@ -149,6 +203,7 @@ async fn run_server(framing: Framing, level: DecodeLevel, tokens: Vec<Token>) ->
             }
             Token::Write(w) => wire.script_writes(&[*w]),
             Token::Release => wire.release_write(),
+            Token::Auth => {}
         }
         settle().await;
     }
@@ -192,6 +247,7 @@ pub enum Token {
     Level(DecodeLevel),
     Write(WriteStep),
     Release,
+    Auth,
 }
 
 fn panic_text(e: tokio::task::JoinError) -> String {
@@ -251,6 +307,7 @@ async fn run_client(framing: Framing, level: DecodeLevel, tokens: Vec<Token>) ->
             }
             Token::Write(w) => wire.script_writes(&[*w]),
             Token::Release => wire.release_write(),
+            Token::Auth => {}
         }
         settle().await;
     }
@@ -307,6 +364,8 @@ fn run_case(line: &str) -> String {
                 Token::Write(WriteStep::Block)
             } else if let Some(k) = h.strip_prefix("@Wa") {
                 Token::Write(WriteStep::Accept(k.parse().unwrap_or(1)))
+            } else if *h == "@A" {
+                Token::Auth
             } else if *h == "@R" {
                 Token::Release
             } else {
